@@ -13,6 +13,7 @@ BAD = 99999999
 
 
 RROUTE = [0]
+SPAT = [-1]
 
 
 def make_resize(darsia, tgt, cons):
@@ -245,6 +246,14 @@ def events(darsia, rng, shapes, quick, arrangements):
             off = [o_l[0][0], o_l[1][0]]
             shp = (o_l[0][1], o_l[1][1])
             a = rand_arr(rng, shp, "float64")
+            # (the values of the images by turns: generic; a sink - non-positive with exact zeros; all zero; signed)
+            SPAT[0] += 1
+            if SPAT[0] % 4 == 1:
+                a = -np.abs(a) * (np.arange(a.size).reshape(a.shape) % 2)
+            elif SPAT[0] % 4 == 2:
+                a = np.zeros_like(a)
+            elif SPAT[0] % 4 == 3:
+                a = a - 4.0
             # voxel (0,0) of image j sits at canvas voxel off: origin shifted by off * h (rows go down: y decreases)
             origin = [10.0 + off[1] * h[1], 20.0 - off[0] * h[0]]
             imgs.append(image(darsia, a, h, origin=origin))
